@@ -391,6 +391,9 @@ class BandwidthRateTracker:
         self._alpha = alpha
         self._last_time = None
         self._current_rate = None
+        # Amount consumed at a time that is not after the last recorded
+        # time. It is accounted for along with the next consumption.
+        self._carried_amt = 0
 
     @property
     def current_rate(self):
@@ -434,9 +437,17 @@ class BandwidthRateTracker:
             self._last_time = time_at_consumption
             self._current_rate = 0.0
             return
+        if time_at_consumption <= self._last_time:
+            # No measurable time has passed since the last consumption. The
+            # rate of this consumption is infinite and an infinite rate
+            # would never average out of the tracked rate again, so carry
+            # the amount over to the next consumption instead.
+            self._carried_amt += amt
+            return
         self._current_rate = self._calculate_exponential_moving_average_rate(
             amt, time_at_consumption
         )
+        self._carried_amt = 0
         self._last_time = time_at_consumption
 
     def _calculate_rate(self, amt, time_at_consumption):
@@ -447,7 +458,7 @@ class BandwidthRateTracker:
             # divide the amount by zero. So instead return back an infinite
             # rate as the time delta is infinitesimally small.
             return float('inf')
-        return amt / (time_delta)
+        return (amt + self._carried_amt) / (time_delta)
 
     def _calculate_exponential_moving_average_rate(
         self, amt, time_at_consumption
